@@ -66,7 +66,7 @@ def ev(e, bind=None, mvals=None):
     if isinstance(e, list):
         if e and e[0] == "c":
             return complex(e[1], e[2])
-        raise ValueError(e)
+        return list(e)  # a plain numeric list parameter (e.g. the GKP state [theta, phi])
     if "arr" in e:
         return np.array(e["arr"], dtype=float)
     if "free" in e:
@@ -95,7 +95,7 @@ def sym(e, prog, regs):
     if isinstance(e, list):
         if e and e[0] == "c":
             return complex(e[1], e[2])
-        raise ValueError(e)
+        return list(e)
     if "arr" in e:
         return np.array(e["arr"], dtype=float)
     if "free" in e:
